@@ -635,4 +635,16 @@ def run (fl : Flags) : DState → List Stmt → Except (Nat × Fault) DState
     | .error f => .error (rest.length, f)
     | .ok σ' => run fl σ' rest
 
+/-- verdict of the type checker on a whole program: `none` = accepted, else (statements left, reason) -/
+def verdict (t : Table) (fl : Flags) (p : List Stmt) : Option (Nat × Rej) :=
+  match check t fl SEnv.empty p with
+  | .ok _ => none
+  | .error e => some e
+
+/-- outcome of running a whole program: `none` = ran to completion, else (statements left, fault) -/
+def faultOf (fl : Flags) (p : List Stmt) : Option (Nat × Fault) :=
+  match run fl DState.empty p with
+  | .ok _ => none
+  | .error e => some e
+
 end Life
